@@ -1,14 +1,22 @@
 #!/bin/bash
-# seed_check.sh <seed id> [property] [tier]: applies seeded/<id>/patch.diff to /repo, runs the
-# property's check, reverts /repo. Prints DETECTED / MISSED.
+# seed_check.sh <seed id> [property] [tier]: applies seeded/<id>/patch.diff to a scratch
+# worktree of /repo (equivalent to applying it to /repo and undoing it, but leaves /repo
+# alone), runs the property's check against that tree, removes the worktree.
+# Evidence/replays of this run go to a scratch directory, not to /verif.
+# Prints DETECTED / MISSED.
 set -u
 ID="$1"; cd "$(dirname "$0")/.." || exit 2
 PROP="${2:-$(python3 -c "import json;print(json.load(open('seeded/$ID/meta.json'))['property'])")}"
 TIER="${3:-quick}"
-if ! git -C /repo diff --quiet; then echo "/repo has uncommitted changes"; exit 2; fi
-git -C /repo apply "$(pwd)/seeded/$ID/patch.diff" || { echo "$ID: PATCH-DOES-NOT-APPLY"; exit 2; }
-OUT=$(scripts/check.sh "$PROP" "$TIER" 2>&1); RC=$?
-git -C /repo checkout -- . 
-echo "$OUT" | grep -E "^(VIOLATION|KNOWN|done|HARNESS|BUILD|WORKER)" | cut -c1-300 | head -8
-echo "$OUT" | grep -A2 "^VIOLATION" | grep "sig=" | head -3
-if [ $RC -eq 1 ]; then echo "$ID on $PROP: DETECTED"; elif [ $RC -eq 0 ]; then echo "$ID on $PROP: MISSED"; else echo "$ID on $PROP: HARNESS-ERROR rc=$RC"; fi
+WT=$(mktemp -d /tmp/seedrun-XXXXXX); OUT=$(mktemp -d /tmp/seedout-XXXXXX)
+git -C /repo worktree add --detach "$WT" HEAD >/dev/null 2>&1 || exit 2
+cleanup(){ git -C /repo worktree remove --force "$WT" >/dev/null 2>&1; rm -rf "$WT" "$OUT"; }
+trap cleanup EXIT
+git -C "$WT" apply "$(pwd)/seeded/$ID/patch.diff" || { echo "$ID: PATCH-DOES-NOT-APPLY"; exit 2; }
+cp known_findings.json "$OUT/"
+S=$(date +%s)
+RES=$(REPO_DIR="$WT" VERIF_OUT="$OUT" scripts/check.sh "$PROP" "$TIER" 2>&1); RC=$?
+E=$(date +%s)
+echo "$RES" | grep -E "^(VIOLATION|KNOWN|done|HARNESS|BUILD|WORKER|NOTE)" | cut -c1-300 | head -6
+echo "$RES" | grep -A2 "^VIOLATION" | grep "sig=" | head -3
+if [ $RC -eq 1 ]; then echo "$ID on $PROP: DETECTED ($((E-S))s)"; elif [ $RC -eq 0 ]; then echo "$ID on $PROP: MISSED ($((E-S))s)"; else echo "$ID on $PROP: HARNESS-ERROR rc=$RC"; fi
